@@ -497,7 +497,12 @@ WalkModule(tpl, S00) ==
       px == ExtendsOf(stmts) IN
   IF px.k = "none" THEN WalkSeq(stmts, S)
   ELSE IF S.fuel = 0 THEN OomS(S)
-  ELSE LET pv == Eval(px, S) IN
+  (* what the template assigns or imports above its extends tag takes effect first: the tag's expression may depend on it *)
+  ELSE LET xi == CHOOSE i \in 1..Len(stmts) : stmts[i].k = "extends" /\ \A j \in 1..(i - 1) : stmts[j].k # "extends"
+           early == SelectSeq(SubSeq(stmts, 1, xi - 1), LAMBDA st : st.k \in {"set", "setcap", "import", "from"})
+           late == SelectSeq(SubSeq(stmts, 1, xi - 1), LAMBDA st : st.k \notin {"set", "setcap", "import", "from"}) \o SubSeq(stmts, xi + 1, Len(stmts))
+           Se == UseAll(early, S)
+           pv == Eval(px, Se) IN
        IF ~Ok(pv[2]) THEN pv[2]
        ELSE LET pb == CoerceBytes(pv[1]) IN
             IF BytesOOM(pb) THEN OomS(pv[2])
@@ -505,7 +510,7 @@ WalkModule(tpl, S00) ==
                  IF ~ld[1] THEN ld[3]
                  ELSE LET S1 == [ld[3] EXCEPT !.name = ld[2], !.fuel = @ - 1,
                                               !.blocks = Append(@, BlocksIn(S.tpls[ld[2]], ld[2]))]
-                          S2 == UseAll(stmts, S1)
+                          S2 == UseAll(late, S1)
                           S3 == WalkModule(ld[2], S2)
                       IN [S3 EXCEPT !.name = S.name, !.fuel = S.fuel]
 
